@@ -5,8 +5,10 @@ package zz_verif
 import (
 	ipfslog "berty.tech/go-ipfs-log"
 	"berty.tech/go-ipfs-log/entry"
+	"berty.tech/go-ipfs-log/entry/sorting"
 	"berty.tech/go-ipfs-log/iface"
 	"berty.tech/go-ipfs-log/internal/vx"
+	"github.com/ipfs/go-cid"
 )
 
 const (
@@ -63,6 +65,7 @@ func H_C09() {
 	want := entriesOf(L)
 	wantHeads := hashSet(L.Heads().Slice())
 	wantVals := L.Values().Slice()
+	h.api.gated = true
 	vx.ExploreOn()
 	N, err := load(h, L, loader, -1, conc, nil, 0)
 	vx.ExploreOff()
@@ -93,3 +96,183 @@ func strSet(ks []string) map[string]bool {
 }
 
 var _ = register("H_C09", H_C09)
+
+// H_C10: a length-limited load returns exactly min(max(n,k), size) entries: the k supplied starting
+// entries plus the most recent others in the log's order, on every schedule and concurrency.
+func H_C10() {
+	h, L := storedLog()
+	vx.Assume(L.Len() > 0)
+	loader := vx.Choice("loader", 4)
+	vx.Sig("loader=" + loaderNames[loader])
+	heads := L.Heads().Slice()
+	if loader == ldEntryHash {
+		vx.Assume(len(heads) == 1)
+	}
+	all := entriesOf(L)
+	size := len(all)
+	n := vx.Choice("n", size+2) // case-split: 0..size+1
+	conc := 1 + vx.Choice("conc", vx.Param("CMAX", 2))
+	// supplied starting entries
+	supplied := map[string]bool{}
+	switch loader {
+	case ldEntries:
+		supplied = hashSet(heads)
+	case ldEntryHash:
+		supplied = hashSet(heads[:1])
+	}
+	k := len(supplied)
+	wantN := n
+	if k > wantN {
+		wantN = k
+	}
+	if wantN > size {
+		wantN = size
+	}
+	// expected: supplied entries + the most recent others in the log's order
+	// the loaders order by FetchOptions.SortFn, which defaults to last-write-wins whatever the log's own
+	// ordering is (the log's SortFn only determines the order of the heads inside the manifest)
+	sorted := refSorted(all, sorting.LastWriteWins)
+	want := map[string]bool{}
+	for s := range supplied {
+		want[s] = true
+	}
+	for i := len(sorted) - 1; i >= 0 && len(want) < wantN; i-- {
+		want[hstr(sorted[i])] = true
+	}
+	h.api.gated = true
+	vx.ExploreOn()
+	N, err := load(h, L, loader, n, conc, nil, 0)
+	vx.ExploreOff()
+	vx.Assert("C10", err == nil && N != nil, "a length-limited load of a fully stored log succeeds")
+	if err != nil || N == nil {
+		return
+	}
+	got := entriesOf(N)
+	if n == 0 {
+		vx.Sig("n=0")
+	} else if n < size {
+		vx.Sig("0<n<size")
+		vx.Cover("truncating-load")
+	} else {
+		vx.Sig("n>=size")
+	}
+	vx.Assert("C10", len(hashSet(got)) == len(got), "the loaded entries are distinct")
+	vx.Assert("C10", subset(hashSet(got), hashSet(all)), "only entries of the stored log are loaded")
+	vx.Assert("C10", len(got) <= wantN, "never more entries than the limit allows")
+	vx.Assert("C10", len(got) == wantN, "exactly min(max(n,k),size) entries are loaded")
+	vx.Assert("C10", subset(supplied, hashSet(got)), "all supplied starting entries are loaded")
+	vx.Assert("C10", sameSet(hashSet(got), want), "the supplied entries plus the most recent others in the log's order are loaded")
+	vx.Observe("n", len(got))
+	vx.Cover("limited-" + loaderNames[loader])
+}
+
+var _ = register("H_C10", H_C10)
+
+var faultNames = []string{"ok", "absent", "undecodable", "hung"}
+
+// refReach: entries reachable from the heads along next and refs through retrievable, non-excluded entries.
+func refReach(heads []cid.Cid, all []iface.IPFSLogEntry, bad map[string]bool) map[string]bool {
+	ix := index(all)
+	out := map[string]bool{}
+	var stack []string
+	for _, c := range heads {
+		stack = append(stack, c.String())
+	}
+	for len(stack) > 0 {
+		k := stack[len(stack)-1]
+		stack = stack[:len(stack)-1]
+		e, ok := ix[k]
+		if !ok || bad[k] || out[k] {
+			continue
+		}
+		out[k] = true
+		for _, n := range e.GetNext() {
+			stack = append(stack, n.String())
+		}
+		for _, r := range e.GetRefs() {
+			stack = append(stack, r.String())
+		}
+	}
+	return out
+}
+
+// H_C11: an unbounded fetch over a store with missing / failing / undecodable / hung blocks and excluded
+// hashes terminates on every schedule, requests no excluded hash and no hash twice, returns no entry
+// twice and returns exactly the entries reachable through retrievable, non-excluded entries.
+func H_C11() {
+	h, L := storedLog()
+	vx.Assume(L.Len() > 0)
+	all := L.Values().Slice()
+	withTimeout := vx.Param("TIMEOUT", 0) == 1
+	kinds := 3
+	if withTimeout {
+		kinds = 4
+	}
+	bad := map[string]bool{}
+	excluded := map[string]bool{}
+	nFaults, nExcl := 0, 0
+	hung := false
+	for _, e := range all {
+		if nFaults < vx.Param("MAXF", 2) {
+			if f := vx.Choice("fault", kinds); f != faultNone {
+				h.api.fault[hstr(e)] = f
+				bad[hstr(e)] = true
+				nFaults++
+				if f == faultHung {
+					hung = true
+				}
+				vx.Cover("fault-" + faultNames[f])
+			}
+		}
+		if nExcl < vx.Param("MAXX", 1) && !bad[hstr(e)] {
+			if vx.Choice("exclude", 2) == 1 {
+				excluded[hstr(e)] = true
+				bad[hstr(e)] = true
+				nExcl++
+				vx.Cover("excluded")
+			}
+		}
+	}
+	var heads []cid.Cid
+	for _, e := range L.Heads().Slice() {
+		heads = append(heads, e.GetHash())
+	}
+	conc := 1 + vx.Choice("conc", vx.Param("CMAX", 2))
+	timeout := 0
+	if withTimeout {
+		timeout = 2000 * 1000 * 1000 // 2 s natively; a timer event in the engine
+	}
+	want := refReach(heads, all, bad)
+	h.api.reads = nil
+	h.api.gated = true
+	vx.ExploreOn()
+	got := entry.FetchAll(ctx, h.api, heads, &iface.FetchOptions{Concurrency: conc, IO: &atomIO{api: h.api}, Timeout: timeDur(timeout),
+		ShouldExclude: func(c cid.Cid) bool { return excluded[c.String()] }})
+	vx.ExploreOff()
+	vx.Cover("fetch-returned")
+	vx.Assert("C11", len(hashSet(got)) == len(got), "no entry is returned twice")
+	reads := h.api.reads
+	vx.Assert("C11", len(strSet(reads)) == len(reads), "no hash is requested twice")
+	okx := true
+	for _, r := range reads {
+		if excluded[r] {
+			okx = false
+		}
+	}
+	vx.Assert("C11", okx, "no excluded hash is requested")
+	if hung {
+		// a request that never completes holds a fetch slot until the deadline: what is behind the queue at
+		// that moment cannot be loaded in time by any implementation, so only soundness is required here
+		vx.Assert("C11", subset(hashSet(got), want), "only entries reachable through retrievable, non-excluded entries are returned (hung block, timeout)")
+	} else {
+		vx.Assert("C11", sameSet(hashSet(got), want), "exactly the entries reachable through retrievable, non-excluded entries are returned")
+	}
+	if len(want) < len(all) && len(want) > 0 {
+		vx.Cover("partial-result")
+	}
+	if !withTimeout {
+		vx.Observe("n", len(got))
+	}
+}
+
+var _ = register("H_C11", H_C11)
